@@ -66,7 +66,9 @@ SignKey(e) ==
   ELSE IF ~UniformOwner(e.rrset) \/ ~WFRRset(e.rrset) THEN "trace/sign-not-an-rrset"
   ELSE LET want == SignFills(e.req, e.rrset)
            feat == Feature(e.rrset) IN
-    IF ~EmitX([id |-> e.id, kind |-> "sign", feature |-> TypedFeature(e.rrset), data |-> SignedData(want.f, e.rrset)]) THEN "trace/emit"
+    IF ~EmitX([id |-> e.id, kind |-> "sign", feature |-> TypedFeature(e.rrset), data |-> SignedData(want.f, e.rrset),
+               \* the octets for the RRSIG as Sign actually filled it (they differ from `data' when the fields are wrong)
+               dataout |-> IF e.ok /\ WFSig(e.out) THEN SignedData(e.out.f, e.rrset) ELSE <<>>]) THEN "trace/emit"
     ELSE IF ~e.ok THEN "dnssec/sign-error:" \o feat
     ELSE IF ~WFSig(e.out) THEN "dnssec/sign-fields:ill-formed"
     ELSE IF FirstFieldDiff(e.out, want) # "" THEN "dnssec/sign-fields:" \o FirstFieldDiff(e.out, want) \o ":" \o feat
@@ -74,7 +76,7 @@ SignKey(e) ==
 
 CheckKey(e) ==
   IF ~WFEvent(e) \/ ~WFSig(e.sig) THEN "trace/check-ill-formed"
-  ELSE IF EmitX([id |-> e.id, kind |-> "check", feature |-> TypedFeature(e.rrset),
+  ELSE IF EmitX([id |-> e.id, kind |-> "check", feature |-> TypedFeature(e.rrset), dataout |-> <<>>,
                  data |-> IF WFRRset(e.rrset) THEN SignedData(e.sig.f, e.rrset) ELSE <<>>]) THEN ""
   ELSE "trace/emit"
 
